@@ -159,12 +159,22 @@ def bad_body(pos: int, a: int) -> bool:
     s = b"".join(frames)
     k = hx.concretize_range(a, 0, P["n"] + 1)
     k = min(k, len(s))
+    exp = [x for i, x in enumerate(ids) if i != p]
     try:
         got, state, silent, left = run_reader([s[:k], s[k:]])
+        # the same with every later frame arriving in a read of its own
+        bounds = [len(frames[0]), len(frames[0]) + len(frames[1]), len(s)]
+        cuts = sorted({k} | {x for x in bounds if x > k})
+        chunks, last = [], 0
+        for x in cuts:
+            chunks.append(s[last:x])
+            last = x
+        chunks.append(s[last:])
+        got2, state2, silent2, left2 = run_reader([ch for ch in chunks if ch])
     except Exception as e:
         return hx.fail((pos, a), "reader thread died: " + type(e).__name__)
-    exp = [x for i, x in enumerate(ids) if i != p]
-    return hx.check((pos, a), (got, state, silent, left), (exp, B.PEER_READY, False, 0), "an undecodable frame is skipped alone; its neighbours are delivered")
+    return hx.check((pos, a), (got, state, silent, left, got2, state2, silent2, left2), (exp, B.PEER_READY, False, 0, exp, B.PEER_READY, False, 0),
+                    "an undecodable frame is skipped alone; its neighbours are delivered (also when they arrive in reads of their own)")
 
 
 # ----------------------------------------------------------------------------- 3. chunking
